@@ -392,7 +392,7 @@ def run_async(case, reply=None):
             agg_cancel = {}
         mutated = [k for k, o in p.get("_objs", {}).items() if canon(o) != canon(mkval(case["params"][k]))]
         mutated += ["src%d" % i for i, (src, obj) in enumerate(zip(case["srcs"], S))
-                    if src["kind"] == "list" and [canon(x) for x in obj] != [canon(mkval(e)) for e in src["script"]]]
+                    if src["kind"] == "list" and [canon(x) for x in list.__iter__(obj)] != [canon(mkval(e)) for e in src["script"]]]
         returned_same = [k for k, o in p.get("_objs", {}).items() if res.exc is None and res.value is o]
         return {"vis": log, "out": out, "srcs": [s.summary() for s in states], "tokens": tokens,
                 "exc_is_injected": _same_exc(res.exc), "mutated": mutated, "returned_param": returned_same, **agg_cancel}
